@@ -10,6 +10,7 @@ import (
 	"github.com/internetarchive/Zeno/internal/pkg/config"
 	"github.com/internetarchive/Zeno/internal/pkg/log"
 	"github.com/internetarchive/Zeno/internal/pkg/source/lq/sqlc_model"
+	"github.com/internetarchive/Zeno/internal/pkg/verifhook"
 	"github.com/internetarchive/Zeno/pkg/models"
 )
 
@@ -90,6 +91,7 @@ func finisherReceiver(ctx context.Context, wg *sync.WaitGroup, batchCh chan *fin
 			logger.Debug("closed")
 			return
 		case item := <-globalLQ.finishCh:
+			verifhook.At("lq.fin.recv", item)
 			logger.Debug("received item", "item", item.GetShortID())
 
 			var value string
@@ -113,6 +115,7 @@ func finisherReceiver(ctx context.Context, wg *sync.WaitGroup, batchCh chan *fin
 				logger.Debug("sending batch to dispatcher", "size", len(batch.URLs))
 				// Send the batch to batchCh.
 				copyBatch := *batch
+				verifhook.At("lq.fin.cut", "size", copyBatch.URLs)
 				select {
 				case <-ctx.Done():
 					logger.Debug("closed")
@@ -125,9 +128,11 @@ func finisherReceiver(ctx context.Context, wg *sync.WaitGroup, batchCh chan *fin
 				ticker.Reset(maxWaitTime)
 			}
 		case <-ticker.C:
+			verifhook.At("lq.fin.tick", len(batch.URLs))
 			if len(batch.URLs) > 0 {
 				logger.Debug("sending non-full batch to dispatcher", "size", len(batch.URLs))
 				copyBatch := *batch
+				verifhook.At("lq.fin.cut", "timer", copyBatch.URLs)
 				select {
 				case <-ctx.Done():
 					logger.Debug("closed")
@@ -162,6 +167,7 @@ func finisherDispatcher(ctx context.Context, wg *sync.WaitGroup, batchCh chan *f
 			logger.Debug("closed")
 			return
 		case batch := <-batchCh:
+			verifhook.At("lq.fin.dispatch", batch.URLs)
 			batchUUID := uuid.NewString()[:6]
 			senderSemaphore <- struct{}{} // Blocks if maxSenders reached.
 			senderWg.Add(1)
@@ -185,7 +191,9 @@ func finisherSender(ctx context.Context, batch *finishBatch, batchUUID string) {
 	logger.Debug("sending batch to LQ", "size", len(batch.URLs))
 
 	for {
+		verifhook.At("lq.fin.delete", batch.URLs)
 		err := globalLQ.client.Delete(context.TODO(), batch.URLs, false)
+		verifhook.At("lq.fin.deleted", batch.URLs, err)
 		select {
 		case <-ctx.Done():
 			logger.Debug("closing")
